@@ -108,6 +108,38 @@ package kzg
 //@ modifies nothing
 //@ end
 
+// BatchOpenSinglePoint (prover side). Goroutines are executed where they are started (option go-as-call), the
+// signalling channel is a log (channels-as-log), parallel.Execute(n, w) is w(0, n) (execute-as-range): what is under
+// contract is the sequential content - guards, index safety for every batch (the empty one included), that the
+// quotient is taken of the folded polynomial at the folded evaluation, and that nothing handed in is written.
+//@ func BatchOpenSinglePoint
+//@ layer ring fr.Element opaque bls12377.G1Affine
+//@ option nomerge
+//@ option go-as-call
+//@ option channels-as-log
+//@ option execute-as-range
+//@ option functional-nested-slices
+//@ option opaque-calls
+//@ option opaque deriveGamma eval dividePolyByXminusA Commit
+//@ loop 0
+//@ + invariant[sizes] -1 <= rangeindex && rangeindex < len(polynomials) && nbDigests == len(digests) && nbDigests == len(polynomials) && largestPoly >= -1 && largestPoly <= len(pk.G1) && (rangeindex >= 0 ==> largestPoly >= 1) && forall(k, 0, rangeindex + 1, 1 <= len(polynomials[k]) && len(polynomials[k]) <= largestPoly)
+//@ loop 1
+//@ + invariant[spawn] 0 <= i && i <= len(polynomials) && len(res.ClaimedValues) == len(polynomials)
+//@ loop 2
+//@ + invariant[powers] 1 <= i && len(gammas) == len(polynomials) && len(foldedPolynomials) == largestPoly
+//@ loop 3
+//@ + invariant[fold] 1 <= i && len(gammas) == len(polynomials) && len(foldedPolynomials) == largestPoly
+//@ inner BatchOpenSinglePoint$2
+//@ loop 0
+//@ + invariant[horner] -1 <= i && i <= nbDigests - 2
+//@ inner BatchOpenSinglePoint$3
+//@ loop 0
+//@ + invariant[range] start <= j && j <= end
+//@ ensures[sizes] len(digests) != len(polynomials) ==> result1 == ErrInvalidNbDigests
+//@ ensures[empty] len(digests) == 0 ==> !isnil(result1)
+//@ modifies nothing
+//@ end
+
 //@ func FoldProof
 //@ layer ring fr.Element opaque bls12377.G1Affine
 //@ option opaque deriveGamma MultiExp
